@@ -6,7 +6,7 @@ fault-free checks (Writer: successful close => complete valid output; Reader: su
 content; Delta: valid => bytes completely on disk; tools: exit 0 => complete correct output)."""
 import os, json, random, shutil, subprocess
 from concurrent.futures import ThreadPoolExecutor
-from .. import common, ref, corpus, delta, readtrace, writegen
+from .. import common, ref, corpus, delta, readtrace, writegen, server, zckdltier
 from ..common import Check, Broken
 from .c02 import validate_segments
 
@@ -272,6 +272,64 @@ def tool_family(ck, rnd, tier, bd, wd, trace, owner):
     return len(faults)
 
 
+# ---------------------------------------------------------------- zckdl
+def zckdl_family(ck, rnd, tier, bd, wd, trace, owner):
+    """the shipped downloader against the loopback server: every read / write / lseek on the target and on the local
+    source fails or is short once (writes also: short, then the retry fails); exit 0 => the target is exactly B"""
+    cB = [b""] + [corpus.text(rnd, 400 + 70 * k) if k != 5 else corpus.rand(rnd, 40000) for k in range(10)]
+    cA = [b""] + [cB[k] for k in range(1, 11) if k % 2 == 0]
+    kw = dict(comp_type=0, hash_type=1, chunk_hash_type=3)
+    A = ref.build_file(cA, **kw)[0]; B = ref.build_file(cB, **kw)[0]
+    root = os.path.join(wd, "dlsrv"); os.makedirs(root); open(os.path.join(root, "B.zck"), "wb").write(B)
+    srv = server.start(root, max_ranges=0, piece=16384)
+    url = "http://127.0.0.1:%d/B.zck" % srv.server_address[1]
+    faults = []
+    try:
+        for ti, T in enumerate((None, A + corpus.rand(rnd, 3000))):
+            d = os.path.join(wd, "dl-count-%d" % ti); os.makedirs(d); open(os.path.join(d, "A.zck"), "wb").write(A)
+            if T is not None: open(os.path.join(d, "B.zck"), "wb").write(T)
+            tr = os.path.join(d, "trace.ndjson")
+            st = zckdltier.run_zckdl(bd, d, url, src="A.zck", trace=tr)
+            if st != 0 or open(os.path.join(d, "B.zck"), "rb").read() != B:
+                raise Broken("fault-free zckdl run failed (status %s)" % st)
+            cnt = {}
+            for l in (open(tr) if os.path.exists(tr) else []):
+                c = json.loads(l); key = (c["k"], c["role"]); cnt[key] = cnt.get(key, 0) + 1
+            if not any(r == "tgt" for (_, r) in cnt) or not any(r == "src" for (_, r) in cnt):
+                raise Broken("zckdl's target/source calls were not observed")
+            for (k, role), n in sorted(cnt.items()):
+                ks = range(1, n + 1) if (tier == "thorough" or n <= 8) else sorted(set([1, 2, 3, n - 1, n, n // 2] + rnd.sample(range(1, n + 1), 4)))
+                for nth in ks:
+                    for a in ([5] if tier == "quick" else ERRS) + ([-1] if k in "rw" else []):
+                        faults.append((ti, [(k, role, nth, a)]))
+                    if k == "w" and (tier != "quick" or nth in (1, 2, n)):
+                        faults.append((ti, [(k, role, nth, -1), (k, role, nth + 1, 5)]))
+        def work(j):
+            i, (ti, fl) = j
+            d = os.path.join(wd, "dl-f%d" % i); os.makedirs(d); open(os.path.join(d, "A.zck"), "wb").write(A)
+            if ti == 1: open(os.path.join(d, "B.zck"), "wb").write(A + bytes(3000))
+            st = zckdltier.run_zckdl(bd, d, url, src="A.zck", fault=fl)
+            pth = os.path.join(d, "B.zck")
+            ok = os.path.exists(pth) and open(pth, "rb").read() == B
+            shutil.rmtree(d, ignore_errors=True)
+            return (j, st, ok)
+        with ThreadPoolExecutor(max_workers=common.NCPU) as ex:
+            res = list(ex.map(work, list(enumerate(faults))))
+    finally:
+        srv.shutdown(); srv.server_close()
+    for (j, rc, ok) in res:
+        i, (ti, fl) = j
+        cid = "dl-f%d" % i
+        name = "zckdl (%s target), %s" % ("no" if ti == 0 else "old longer", " then ".join("fault %s on %s call %d action %d" % f for f in fl))
+        trace.append({"op": "wstart", "case": name}); owner.append(cid)
+        if rc == "Hang" or (isinstance(rc, int) and (rc < 0 or rc in (134, 139))):
+            trace.append({"op": "Crash" if rc != "Hang" else "Hang", "tool": "zckdl", "rc": str(rc)}); owner.append(cid)
+        else:
+            trace.append({"op": "toolf", "tool": "zckdl", "status": rc, "outOk": bool(ok)}); owner.append(cid)
+        ck.case(name)
+    return len(faults)
+
+
 def run(tier):
     ck = Check("C12", tier, level="model_checking")
     rnd = random.Random(common.seed())
@@ -281,9 +339,10 @@ def run(tier):
     tw = []; ow = []; tr = []; orr = []; td = []; od = []
     nw = writer_family(ck, rnd, tier, wd, tw, ow, sb)
     nt = tool_family(ck, rnd, tier, bd, wd, tw, ow)
+    nz = zckdl_family(ck, rnd, tier, bd, wd, tw, ow)
     nr = reader_family(ck, rnd, tier, wd, tr, orr, sb)
     nd = delta_family(ck, rnd, tier, wd, td, od, sb)
-    ck.extra["single_faults"] = {"writer": nw, "tools": nt, "reader_validate": nr, "copy_download": nd}
+    ck.extra["single_faults"] = {"writer": nw, "tools": nt, "zckdl": nz, "reader_validate": nr, "copy_download": nd}
     ck.sample({"writer_case": tw[0].get("case"), "events": tw[:6]})
     ck.sample({"reader_case": [t for t in tr[:6]]})
     validate_segments(ck, "C12", tw, ow, wd, scripts_by=sb, module="Trace_Writer", cfg="Trace_Writer.cfg", start_ops=("wstart",))
